@@ -38,6 +38,10 @@ pub struct StallScript {
     /// stalled topic's queue
     #[serde(default)]
     pub probe_from_queued_conn: bool,
+    /// one more badly behaved participant of topic A: a peer that grants no flow-control credit at
+    /// all on its registration stream, so that even the server's answer to it cannot be delivered
+    #[serde(default)]
+    pub zero_window_peer: bool,
 }
 
 pub fn gen_script(rng: &mut Rng) -> StallScript {
@@ -55,6 +59,7 @@ pub fn gen_script(rng: &mut Rng) -> StallScript {
         msg_size: *rng.pick(&[1_024usize, 4_096, 16_000]),
         stall_wait_ms: *rng.pick(&[2_000u64, 4_000]),
         probe_from_queued_conn: rng.chance(1, 2),
+        zero_window_peer: rng.chance(1, 3),
     }
 }
 
@@ -154,6 +159,20 @@ async fn scenario(world: Rc<World>, sc: StallScript) -> AResult<StallReport> {
     rep.regs_sent += send_regs(sc.regs_before_stall, sc.n_regs).await;
     tokio::time::sleep(Duration::from_millis(1_000)).await;
     rep.regs_answered_ok = *answered.borrow();
+    let mut _zero_window_keep = None;
+    if sc.zero_window_peer {
+        let g = world.new_group();
+        let mut t = TransportConfig::default();
+        t.stream_receive_window(VarInt::from_u32(0));
+        t.max_idle_timeout(Some(VarInt::from_u32(600_000).into()));
+        let (ep, conn) = world.raw_trusted(g, Some(t)).await?;
+        let s = tokio::time::timeout(Duration::from_secs(5), raw_open(&conn, Frame::RegisterSubscriber(SubscriberPayload { topic: topic_a.clone(), retention_policy: 0, operations: vec![] }))).await;
+        if !matches!(s, Ok(Ok(_))) {
+            rep.notes.push("zero-window peer could not send its registration".into());
+        }
+        tokio::time::sleep(Duration::from_millis(500)).await;
+        _zero_window_keep = Some((ep, conn, s));
+    }
     // the probe: a well-behaved pair of clients on another topic
     let ga = world.new_group();
     let gb = world.new_group();
@@ -238,7 +257,7 @@ pub fn execute(prop: &str, sc: &StallScript, opts: &ExecOpts) -> Outcome {
                         out.probe("registration_queue_overfull");
                     }
                     if rep.publisher_blocked && !rep.probe_ok {
-                        let bucket = if rep.regs_sent >= 102 { "queue-overfull" } else { "queue-not-full" };
+                        let bucket = if sc.zero_window_peer { "zero-window-peer" } else if rep.regs_sent >= 102 { "queue-overfull" } else { "queue-not-full" };
                         out.violate(
                             prop,
                             "other-topic-blocked",
@@ -312,6 +331,11 @@ impl Family for StallFamily {
                 c.regs_before_stall = c.regs_before_stall.min(n);
                 out.push(c);
             }
+        }
+        if sc.zero_window_peer {
+            let mut c = sc.clone();
+            c.zero_window_peer = false;
+            out.push(c);
         }
         if sc.regs_before_stall > 0 {
             let mut c = sc.clone();
